@@ -874,13 +874,13 @@ pub fn run(cfg: &Cfg) -> i32 {
     let cj = classes.0.lock().unwrap().clone();
     for need in ["append:unique+slack", "append:shared", "append:borrowed", "invert:unique+slack", "append:unique"] {
         if !cj.keys().any(|k| k.starts_with(need)) {
-            machinery_error(&format!("vacuous: ownership class {} never reached in the history search", need));
+            vacuous(&format!("vacuous: ownership class {} never reached in the history search", need));
         }
     }
     let rc = recipe_counts.0.lock().unwrap().clone();
     for r in RECIPES {
         if !rc.keys().any(|k| k.starts_with(r)) {
-            machinery_error(&format!("vacuous: recipe {} never produced a subject", r));
+            vacuous(&format!("vacuous: recipe {} never produced a subject", r));
         }
     }
     ev.states = seqs.load(Ordering::Relaxed) + single_subjects.load(Ordering::Relaxed);
